@@ -7,6 +7,8 @@ verus! {
 global size_of usize == 8;
 //@ include units/gds_codec/spec.inc.rs
 //@ include units/gds_codec/points.inc.rs
+//@ include units/gds_codec/writer.inc.rs
+//@ include units/gds_codec/lemmas.inc.rs
 //@ include units/gds_tree/tree.inc.rs
 
 pub assume_specification<T: Clone>[ <[T]>::to_vec ](s: &[T]) -> (r: Vec<T>) ensures r@ == s@;
@@ -19,15 +21,110 @@ pub fn vp_f64(x: f64) -> (r: f64) ensures r == x { x }
 pub fn vp_extend(v: &mut Vec<i32>, w: Vec<i32>) ensures final(v)@ == old(v)@ + w@ { v.extend(w) }
 
 
-pub open spec fn boundary_req(b: GdsBoundary) -> bool { b.xy@.len() < 0x3fff_ffff_ffff_ffff }
-pub open spec fn path_req(b: GdsPath) -> bool { b.xy@.len() < 0x3fff_ffff_ffff_ffff }
-pub open spec fn node_req(b: GdsNode) -> bool { b.xy@.len() < 0x3fff_ffff_ffff_ffff }
-pub open spec fn sref_req(b: GdsStructRef) -> bool { true }
-pub open spec fn aref_req(b: GdsArrayRef) -> bool { true }
-pub open spec fn text_req(b: GdsTextElem) -> bool { true }
-pub open spec fn box_req(b: GdsBox) -> bool { true }
+/// ---- domain of the writer theorem (preconditions): sizes a Vec/String can have in practice, reals inside the GDSII range ----
+pub open spec fn xy_req(n: nat) -> bool { n < 0x0fff_ffff_ffff_ff00 }
+pub open spec fn str_req(s: &String) -> bool { string_bytes(s).len() < 0x7fff_ffff_ffff_0000 }
+pub open spec fn oreal_req(x: Option<f64>) -> bool { x is Some ==> gds_in_range(x->0) }
+pub open spec fn strans_req(s: GdsStrans) -> bool { oreal_req(s.mag) && oreal_req(s.angle) }
+pub open spec fn ostrans_req(s: Option<GdsStrans>) -> bool { s is Some ==> strans_req(s->0) }
+pub open spec fn props_req(ps: Seq<GdsProperty>) -> bool { forall|i: int| 0 <= i < ps.len() ==> str_req(&(#[trigger] ps[i]).value) }
+pub open spec fn boundary_req(b: GdsBoundary) -> bool { xy_req(b.xy@.len()) && props_req(b.properties@) }
+pub open spec fn path_req(b: GdsPath) -> bool { xy_req(b.xy@.len()) && props_req(b.properties@) }
+pub open spec fn node_req(b: GdsNode) -> bool { xy_req(b.xy@.len()) && props_req(b.properties@) }
+pub open spec fn box_req(b: GdsBox) -> bool { xy_req(b.xy@.len()) && props_req(b.properties@) }
+pub open spec fn sref_req(b: GdsStructRef) -> bool { str_req(&b.name) && ostrans_req(b.strans) && props_req(b.properties@) }
+pub open spec fn aref_req(b: GdsArrayRef) -> bool { str_req(&b.name) && ostrans_req(b.strans) && props_req(b.properties@) }
+pub open spec fn text_req(b: GdsTextElem) -> bool { str_req(&b.string) && ostrans_req(b.strans) && props_req(b.properties@) }
 pub open spec fn elem_req(e: GdsElement) -> bool {
-    match e { GdsElement::GdsBoundary(x) => boundary_req(x), GdsElement::GdsPath(x) => path_req(x), GdsElement::GdsNode(x) => node_req(x), _ => true }
+    match e {
+        GdsElement::GdsBoundary(x) => boundary_req(x), GdsElement::GdsPath(x) => path_req(x), GdsElement::GdsStructRef(x) => sref_req(x), GdsElement::GdsArrayRef(x) => aref_req(x),
+        GdsElement::GdsTextElem(x) => text_req(x), GdsElement::GdsNode(x) => node_req(x), GdsElement::GdsBox(x) => box_req(x),
+    }
+}
+pub open spec fn struct_req(s: GdsStruct) -> bool { str_req(&s.name) && forall|i: int| 0 <= i < s.elems@.len() ==> elem_req(#[trigger] s.elems@[i]) }
+pub open spec fn lib_req(l: GdsLibrary) -> bool {
+    str_req(&l.name) && gds_in_range(l.units.0) && gds_in_range(l.units.1) && forall|i: int| 0 <= i < l.structs@.len() ==> struct_req(#[trigger] l.structs@[i])
+}
+/// what a record handed to an encoder must satisfy: payload of a size a Vec/String can have, reals inside the GDSII range
+pub open spec fn rec_ok(r: GdsRecord) -> bool {
+    (r is Xy ==> r->Xy_0@.len() < 0x1fff_ffff_ffff_ff00)
+    && (r is Mag ==> gds_in_range(r->Mag_0)) && (r is Angle ==> gds_in_range(r->Angle_0)) && (r is Units ==> gds_in_range(r->Units_0) && gds_in_range(r->Units_1))
+    && (r is LibName ==> str_req(&r->LibName_0)) && (r is StructName ==> str_req(&r->StructName_0)) && (r is StructRefName ==> str_req(&r->StructRefName_0))
+    && (r is String ==> str_req(&r->String_0)) && (r is RefLibs ==> str_req(&r->RefLibs_0)) && (r is Fonts ==> str_req(&r->Fonts_0)) && (r is AttrTable ==> str_req(&r->AttrTable_0))
+    && (r is PropValue ==> str_req(&r->PropValue_0)) && (r is Mask ==> str_req(&r->Mask_0)) && (r is SrfName ==> str_req(&r->SrfName_0))
+}
+/// rec_ok in the terms the record writer's contract uses
+proof fn lemma_rec_ok(r: GdsRecord) requires rec_ok(r) ensures payload(r).len() < 0x7fff_ffff_ffff_ff00, reals_ok(r) { lemma_payload_len(r); }
+
+/// the record-by-record ("operational") reading of <text> and <path> up to the property list: one push per record, in order, in stages.
+/// lemma_text_op / lemma_path_op prove these equal to the grammar oracle's text_pre / path_pre.
+pub open spec fn op_head(s: Seq<Content>, num: u8, ef: Option<GdsElemFlags>, pl: Option<GdsPlex>) -> Seq<Content> {
+    let s = s.push(c0(num));
+    let s = match ef { Some(f) => s.push(ci(0x26, seq![f.0 as int, f.1 as int])), None => s };
+    match pl { Some(f) => s.push(ci(0x2F, seq![f.0 as int])), None => s }
+}
+pub open spec fn op_i16(s: Seq<Content>, num: u8, o: Option<i16>) -> Seq<Content> { match o { Some(v) => s.push(ci(num, seq![v as int])), None => s } }
+pub open spec fn op_i32(s: Seq<Content>, num: u8, o: Option<i32>) -> Seq<Content> { match o { Some(v) => s.push(ci(num, seq![v as int])), None => s } }
+pub open spec fn text_op_b(s: Seq<Content>, t: GdsTextElem) -> Seq<Content> {
+    let s = s.push(ci(0x0D, seq![t.layer as int])).push(ci(0x16, seq![t.texttype as int]));
+    match t.presentation { Some(p) => s.push(ci(0x17, seq![p.0 as int, p.1 as int])), None => s }
+}
+pub open spec fn text_op_d(s: Seq<Content>, t: GdsTextElem) -> Seq<Content> {
+    let s = match t.strans { Some(st) => s + strans_c(st), None => s };
+    s.push(ci(0x10, xy_ints(seq![t.xy]))).push(cs(0x19, string_bytes(&t.string)))
+}
+pub open spec fn text_op(b: Seq<Content>, t: GdsTextElem) -> Seq<Content> {
+    text_op_d(op_i32(op_i16(text_op_b(op_head(b, 0x0C, t.elflags, t.plex), t), 0x21, t.path_type), 0x0F, t.width), t)
+}
+proof fn lemma_op_head(b: Seq<Content>, num: u8, ef: Option<GdsElemFlags>, pl: Option<GdsPlex>)
+    ensures op_head(b, num, ef, pl) == b + (seq![c0(num)] + opt_elflags(ef) + opt_plex(pl))
+{ assert(op_head(b, num, ef, pl) =~= b + (seq![c0(num)] + opt_elflags(ef) + opt_plex(pl))); }
+proof fn lemma_op_i16(b: Seq<Content>, x: Seq<Content>, num: u8, o: Option<i16>) ensures op_i16(b + x, num, o) == b + (x + opt_i16(num, o))
+{ assert(op_i16(b + x, num, o) =~= b + (x + opt_i16(num, o))); }
+proof fn lemma_op_i32(b: Seq<Content>, x: Seq<Content>, num: u8, o: Option<i32>) ensures op_i32(b + x, num, o) == b + (x + opt_i32(num, o))
+{ assert(op_i32(b + x, num, o) =~= b + (x + opt_i32(num, o))); }
+proof fn lemma_text_op_b(b: Seq<Content>, x: Seq<Content>, t: GdsTextElem)
+    ensures text_op_b(b + x, t) == b + (x + seq![ci(0x0D, seq![t.layer as int]), ci(0x16, seq![t.texttype as int])]
+        + (match t.presentation { Some(p) => seq![ci(0x17, seq![p.0 as int, p.1 as int])], None => Seq::<Content>::empty() }))
+{
+    assert(text_op_b(b + x, t) =~= b + (x + seq![ci(0x0D, seq![t.layer as int]), ci(0x16, seq![t.texttype as int])]
+        + (match t.presentation { Some(p) => seq![ci(0x17, seq![p.0 as int, p.1 as int])], None => Seq::<Content>::empty() })));
+}
+proof fn lemma_text_op_d(b: Seq<Content>, x: Seq<Content>, t: GdsTextElem)
+    ensures text_op_d(b + x, t) == b + (x + opt_strans(t.strans) + seq![ci(0x10, xy_ints(seq![t.xy])), cs(0x19, string_bytes(&t.string))])
+{ assert(text_op_d(b + x, t) =~= b + (x + opt_strans(t.strans) + seq![ci(0x10, xy_ints(seq![t.xy])), cs(0x19, string_bytes(&t.string))])); }
+proof fn lemma_text_op(b: Seq<Content>, t: GdsTextElem) ensures text_op(b, t) == b + text_pre(t) {
+    let x1 = seq![c0(0x0C)] + opt_elflags(t.elflags) + opt_plex(t.plex);
+    lemma_op_head(b, 0x0C, t.elflags, t.plex);
+    lemma_text_op_b(b, x1, t);
+    let x2 = x1 + seq![ci(0x0D, seq![t.layer as int]), ci(0x16, seq![t.texttype as int])]
+        + (match t.presentation { Some(p) => seq![ci(0x17, seq![p.0 as int, p.1 as int])], None => Seq::<Content>::empty() });
+    lemma_op_i16(b, x2, 0x21, t.path_type);
+    let x3 = x2 + opt_i16(0x21, t.path_type);
+    lemma_op_i32(b, x3, 0x0F, t.width);
+    let x4 = x3 + opt_i32(0x0F, t.width);
+    lemma_text_op_d(b, x4, t);
+}
+pub open spec fn path_op(b: Seq<Content>, t: GdsPath) -> Seq<Content> {
+    let s = op_head(b, 0x09, t.elflags, t.plex);
+    let s = s.push(ci(0x0D, seq![t.layer as int])).push(ci(0x0E, seq![t.datatype as int]));
+    let s = op_i32(op_i32(op_i32(op_i16(s, 0x21, t.path_type), 0x0F, t.width), 0x30, t.begin_extn), 0x31, t.end_extn);
+    s.push(ci(0x10, xy_ints(t.xy@)))
+}
+proof fn lemma_path_op(b: Seq<Content>, t: GdsPath) ensures path_op(b, t) == b + path_pre(t) {
+    let x1 = seq![c0(0x09)] + opt_elflags(t.elflags) + opt_plex(t.plex);
+    lemma_op_head(b, 0x09, t.elflags, t.plex);
+    let x2 = x1 + seq![ci(0x0D, seq![t.layer as int]), ci(0x0E, seq![t.datatype as int])];
+    assert((b + x1).push(ci(0x0D, seq![t.layer as int])).push(ci(0x0E, seq![t.datatype as int])) =~= b + x2);
+    lemma_op_i16(b, x2, 0x21, t.path_type);
+    let x3 = x2 + opt_i16(0x21, t.path_type);
+    lemma_op_i32(b, x3, 0x0F, t.width);
+    let x4 = x3 + opt_i32(0x0F, t.width);
+    lemma_op_i32(b, x4, 0x30, t.begin_extn);
+    let x5 = x4 + opt_i32(0x30, t.begin_extn);
+    lemma_op_i32(b, x5, 0x31, t.end_extn);
+    let x6 = x5 + opt_i32(0x31, t.end_extn);
+    assert((b + x6).push(ci(0x10, xy_ints(t.xy@))) =~= b + (x6 + seq![ci(0x10, xy_ints(t.xy@))]));
 }
 
 // =====================================================================================================
@@ -36,20 +133,25 @@ pub open spec fn elem_req(e: GdsElement) -> bool {
 trait Encode {
     /// R8 ghost member: the contents of the records encoded so far
     spec fn recs(&self) -> Seq<Content>;
+    /// R8 ghost member: the encoder's own invariant (for GdsWriter: the bytes written so far are whole records)
+    spec fn inv(&self) -> bool;
 //@ fn gds21/src/write.rs :: trait Encode :: fn encode_record
 //@   ret r
 //@   spec
-//|         ensures r is Ok ==> final(self).recs() == old(self).recs().push(content(record))
+//|         requires old(self).inv(), rec_ok(record),
+//|         ensures r is Ok ==> final(self).inv() && final(self).recs() == old(self).recs().push(content(record))
 //@ end
 //@ fn gds21/src/write.rs :: trait Encode :: fn encode_records
 //@   ret r
 //@   spec
-//|         ensures r is Ok ==> final(self).recs() == old(self).recs() + contents(records@)
+//|         requires old(self).inv(), forall|i: int| 0 <= i < records@.len() ==> rec_ok(#[trigger] records@[i]),
+//|         ensures r is Ok ==> final(self).inv() && final(self).recs() == old(self).recs() + contents(records@)
 //@ end
 //@ fn gds21/src/write.rs :: trait Encode :: fn encode_strans
 //@   ret r
 //@   spec
-//|         ensures r is Ok ==> final(self).recs() == old(self).recs() + strans_c(*strans),
+//|         requires old(self).inv(), strans_req(*strans),
+//|         ensures r is Ok ==> final(self).inv() && final(self).recs() == old(self).recs() + strans_c(*strans),
 //@   before /self\.encode_record\(GdsRecord::Strans\(/
 //|         proof {
 //|             assert((1u8 << 7) == 0x80u8 && (0u8 << 7) == 0u8) by (bit_vector);
@@ -61,13 +163,13 @@ trait Encode {
 //@ fn gds21/src/write.rs :: trait Encode :: fn encode_boundary
 //@   ret r
 //@   spec
-//|         requires boundary_req(*boundary),
-//|         ensures r is Ok ==> final(self).recs() == old(self).recs() + boundary_c(*boundary),
+//|         requires old(self).inv(), boundary_req(*boundary),
+//|         ensures r is Ok ==> final(self).inv() && final(self).recs() == old(self).recs() + boundary_c(*boundary),
 //@   before /for prop in boundary\.properties\.iter\(\)/
 //|         let ghost pre = self.recs();
 //|         proof { lemma_xy(boundary.xy@); assert(pre =~= old(self).recs() + boundary_pre(*boundary)); }
 //@   loop 1 iter it
-//|             invariant self.recs() == pre + props_c(boundary.properties@.take(it.index@ as int)), it.index@ <= boundary.properties@.len(),
+//|             invariant self.inv(), props_req(boundary.properties@), self.recs() == pre + props_c(boundary.properties@.take(it.index@ as int)), it.index@ <= boundary.properties@.len(),
 //@   loopend 1
 //|             proof { lemma_props_push(boundary.properties@.take(it.index@ as int), *prop); assert(boundary.properties@.take(it.index@ + 1) == boundary.properties@.take(it.index@ as int).push(*prop)); }
 //@   before /^        Ok\(\(\)\)$/
@@ -77,13 +179,17 @@ trait Encode {
 //@   attr #[verifier::spinoff_prover] #[verifier::rlimit(100)]
 //@   ret r
 //@   spec
-//|         requires path_req(*path),
-//|         ensures r is Ok ==> final(self).recs() == old(self).recs() + path_c(*path),
+//|         requires old(self).inv(), path_req(*path),
+//|         ensures r is Ok ==> final(self).inv() && final(self).recs() == old(self).recs() + path_c(*path),
 //@   before /for prop in path\.properties\.iter\(\)/
 //|         let ghost pre = self.recs();
-//|         proof { lemma_xy(path.xy@); assert(pre =~= old(self).recs() + path_pre(*path)); }
+//|         proof {
+//|             lemma_xy(path.xy@);
+//|             assert(pre == path_op(old(self).recs(), *path));
+//|             lemma_path_op(old(self).recs(), *path);
+//|         }
 //@   loop 1 iter it
-//|             invariant self.recs() == pre + props_c(path.properties@.take(it.index@ as int)), it.index@ <= path.properties@.len(),
+//|             invariant self.inv(), props_req(path.properties@), self.recs() == pre + props_c(path.properties@.take(it.index@ as int)), it.index@ <= path.properties@.len(),
 //@   loopend 1
 //|             proof { lemma_props_push(path.properties@.take(it.index@ as int), *prop); assert(path.properties@.take(it.index@ + 1) == path.properties@.take(it.index@ as int).push(*prop)); }
 //@   before /^        Ok\(\(\)\)$/
@@ -93,13 +199,13 @@ trait Encode {
 //@   attr #[verifier::spinoff_prover] #[verifier::rlimit(100)]
 //@   ret r
 //@   spec
-//|         requires sref_req(*sref),
-//|         ensures r is Ok ==> final(self).recs() == old(self).recs() + sref_c(*sref),
+//|         requires old(self).inv(), sref_req(*sref),
+//|         ensures r is Ok ==> final(self).inv() && final(self).recs() == old(self).recs() + sref_c(*sref),
 //@   before /for prop in sref\.properties\.iter\(\)/
 //|         let ghost pre = self.recs();
 //|         proof { lemma_xy_single(sref.xy); assert(pre =~= old(self).recs() + sref_pre(*sref)); }
 //@   loop 1 iter it
-//|             invariant self.recs() == pre + props_c(sref.properties@.take(it.index@ as int)), it.index@ <= sref.properties@.len(),
+//|             invariant self.inv(), props_req(sref.properties@), self.recs() == pre + props_c(sref.properties@.take(it.index@ as int)), it.index@ <= sref.properties@.len(),
 //@   loopend 1
 //|             proof { lemma_props_push(sref.properties@.take(it.index@ as int), *prop); assert(sref.properties@.take(it.index@ + 1) == sref.properties@.take(it.index@ as int).push(*prop)); }
 //@   before /^        Ok\(\(\)\)$/
@@ -109,13 +215,17 @@ trait Encode {
 //@   attr #[verifier::spinoff_prover] #[verifier::rlimit(100)]
 //@   ret r
 //@   spec
-//|         requires text_req(*text),
-//|         ensures r is Ok ==> final(self).recs() == old(self).recs() + text_c(*text),
+//|         requires old(self).inv(), text_req(*text),
+//|         ensures r is Ok ==> final(self).inv() && final(self).recs() == old(self).recs() + text_c(*text),
 //@   before /for prop in text\.properties\.iter\(\)/
 //|         let ghost pre = self.recs();
-//|         proof { lemma_xy_single(text.xy); assert(pre =~= old(self).recs() + text_pre(*text)); }
+//|         proof {
+//|             lemma_xy_single(text.xy);
+//|             assert(pre == text_op(old(self).recs(), *text));
+//|             lemma_text_op(old(self).recs(), *text);
+//|         }
 //@   loop 1 iter it
-//|             invariant self.recs() == pre + props_c(text.properties@.take(it.index@ as int)), it.index@ <= text.properties@.len(),
+//|             invariant self.inv(), props_req(text.properties@), self.recs() == pre + props_c(text.properties@.take(it.index@ as int)), it.index@ <= text.properties@.len(),
 //@   loopend 1
 //|             proof { lemma_props_push(text.properties@.take(it.index@ as int), *prop); assert(text.properties@.take(it.index@ + 1) == text.properties@.take(it.index@ as int).push(*prop)); }
 //@   before /^        Ok\(\(\)\)$/
@@ -124,13 +234,13 @@ trait Encode {
 //@ fn gds21/src/write.rs :: trait Encode :: fn encode_node
 //@   ret r
 //@   spec
-//|         requires node_req(*node),
-//|         ensures r is Ok ==> final(self).recs() == old(self).recs() + node_c(*node),
+//|         requires old(self).inv(), node_req(*node),
+//|         ensures r is Ok ==> final(self).inv() && final(self).recs() == old(self).recs() + node_c(*node),
 //@   before /for prop in node\.properties\.iter\(\)/
 //|         let ghost pre = self.recs();
 //|         proof { lemma_xy(node.xy@); assert(pre =~= old(self).recs() + node_pre(*node)); }
 //@   loop 1 iter it
-//|             invariant self.recs() == pre + props_c(node.properties@.take(it.index@ as int)), it.index@ <= node.properties@.len(),
+//|             invariant self.inv(), props_req(node.properties@), self.recs() == pre + props_c(node.properties@.take(it.index@ as int)), it.index@ <= node.properties@.len(),
 //@   loopend 1
 //|             proof { lemma_props_push(node.properties@.take(it.index@ as int), *prop); assert(node.properties@.take(it.index@ + 1) == node.properties@.take(it.index@ as int).push(*prop)); }
 //@   before /^        Ok\(\(\)\)$/
@@ -139,13 +249,13 @@ trait Encode {
 //@ fn gds21/src/write.rs :: trait Encode :: fn encode_box
 //@   ret r
 //@   spec
-//|         requires box_req(*box_),
-//|         ensures r is Ok ==> final(self).recs() == old(self).recs() + box_c(*box_),
+//|         requires old(self).inv(), box_req(*box_),
+//|         ensures r is Ok ==> final(self).inv() && final(self).recs() == old(self).recs() + box_c(*box_),
 //@   before /for prop in box_\.properties\.iter\(\)/
 //|         let ghost pre = self.recs();
 //|         proof { lemma_xy(box_.xy@); assert(pre =~= old(self).recs() + box_pre(*box_)); }
 //@   loop 1 iter it
-//|             invariant self.recs() == pre + props_c(box_.properties@.take(it.index@ as int)), it.index@ <= box_.properties@.len(),
+//|             invariant self.inv(), props_req(box_.properties@), self.recs() == pre + props_c(box_.properties@.take(it.index@ as int)), it.index@ <= box_.properties@.len(),
 //@   loopend 1
 //|             proof { lemma_props_push(box_.properties@.take(it.index@ as int), *prop); assert(box_.properties@.take(it.index@ + 1) == box_.properties@.take(it.index@ as int).push(*prop)); }
 //@   before /^        Ok\(\(\)\)$/
@@ -156,13 +266,13 @@ trait Encode {
 //@   sub R6 /xy\.extend\((GdsPoint::flatten\(&aref\.xy\[\d\]\))\);/ => vp_extend(&mut xy, \1);
 //@   ret r
 //@   spec
-//|         requires aref_req(*aref),
-//|         ensures r is Ok ==> final(self).recs() == old(self).recs() + aref_c(*aref),
+//|         requires old(self).inv(), aref_req(*aref),
+//|         ensures r is Ok ==> final(self).inv() && final(self).recs() == old(self).recs() + aref_c(*aref),
 //@   before /for prop in aref\.properties\.iter\(\)/
 //|         let ghost pre = self.recs();
 //|         proof { lemma_xy(aref.xy@); assert(xy_of(aref.xy@, xy@)); assert(pre =~= old(self).recs() + aref_pre(*aref)); }
 //@   loop 1 iter it
-//|             invariant self.recs() == pre + props_c(aref.properties@.take(it.index@ as int)), it.index@ <= aref.properties@.len(),
+//|             invariant self.inv(), props_req(aref.properties@), self.recs() == pre + props_c(aref.properties@.take(it.index@ as int)), it.index@ <= aref.properties@.len(),
 //@   loopend 1
 //|             proof { lemma_props_push(aref.properties@.take(it.index@ as int), *prop); assert(aref.properties@.take(it.index@ + 1) == aref.properties@.take(it.index@ as int).push(*prop)); }
 //@   before /^        Ok\(\(\)\)$/
@@ -171,8 +281,8 @@ trait Encode {
 //@ fn gds21/src/write.rs :: trait Encode :: fn encode_element
 //@   ret r
 //@   spec
-//|         requires elem_req(*elem),
-//|         ensures r is Ok ==> final(self).recs() == old(self).recs() + elem_c(*elem),
+//|         requires old(self).inv(), elem_req(*elem),
+//|         ensures r is Ok ==> final(self).inv() && final(self).recs() == old(self).recs() + elem_c(*elem),
 //@ end
 //@ fn gds21/src/write.rs :: trait Encode :: fn encode_datetime
 //@   spec
@@ -187,8 +297,8 @@ trait Encode {
 //@ fn gds21/src/write.rs :: trait Encode :: fn encode_struct
 //@   ret r
 //@   spec
-//|         requires forall|i: int| 0 <= i < strukt.elems@.len() ==> elem_req(#[trigger] strukt.elems@[i]),
-//|         ensures r is Ok ==> final(self).recs() == old(self).recs() + struct_c(*strukt),
+//|         requires old(self).inv(), struct_req(*strukt),
+//|         ensures r is Ok ==> final(self).inv() && final(self).recs() == old(self).recs() + struct_c(*strukt),
 //@   before /Write each of our elements/
 //|         let ghost pre = self.recs();
 //|         proof {
@@ -196,8 +306,8 @@ trait Encode {
 //|             assert(pre =~= old(self).recs() + seq![ci(0x05, dates12(strukt.dates)), cs(0x06, string_bytes(&strukt.name))]);
 //|         }
 //@   loop 1 iter it
-//|             invariant self.recs() == pre + elems_c(strukt.elems@.take(it.index@ as int)), it.index@ <= strukt.elems@.len(),
-//|                 forall|i: int| 0 <= i < strukt.elems@.len() ==> elem_req(#[trigger] strukt.elems@[i]),
+//|             invariant self.inv(), self.recs() == pre + elems_c(strukt.elems@.take(it.index@ as int)), it.index@ <= strukt.elems@.len(),
+//|                 struct_req(*strukt),
 //@   loopend 1
 //|             proof { assert(strukt.elems@.take(it.index@ + 1).drop_last() == strukt.elems@.take(it.index@ as int)); assert(self.recs() =~= pre + elems_c(strukt.elems@.take(it.index@ + 1))); }
 //@   before /^        Ok\(\(\)\)$/
@@ -207,8 +317,8 @@ trait Encode {
 //@   sub R11 /GdsRecord::Units\(lib\.units\.0, lib\.units\.1\)/ => GdsRecord::Units(vp_f64(lib.units.0), vp_f64(lib.units.1))
 //@   ret r
 //@   spec
-//|         requires forall|i: int, j: int| 0 <= i < lib.structs@.len() && 0 <= j < lib.structs@[i].elems@.len() ==> elem_req(#[trigger] lib.structs@[i].elems@[j]),
-//|         ensures r is Ok ==> final(self).recs() == old(self).recs() + lib_c(*lib),
+//|         requires old(self).inv(), lib_req(*lib),
+//|         ensures r is Ok ==> final(self).inv() && final(self).recs() == old(self).recs() + lib_c(*lib),
 //@   before /Write all of our Structs/
 //|         let ghost pre = self.recs();
 //|         proof {
@@ -216,8 +326,8 @@ trait Encode {
 //|             assert(pre =~= old(self).recs() + seq![ci(0x00, seq![lib.version as int]), ci(0x01, dates12(lib.dates)), cs(0x02, string_bytes(&lib.name)), cr(0x03, seq![lib.units.0, lib.units.1])]);
 //|         }
 //@   loop 1 iter it
-//|             invariant self.recs() == pre + structs_c(lib.structs@.take(it.index@ as int)), it.index@ <= lib.structs@.len(),
-//|                 forall|i: int, j: int| 0 <= i < lib.structs@.len() && 0 <= j < lib.structs@[i].elems@.len() ==> elem_req(#[trigger] lib.structs@[i].elems@[j]),
+//|             invariant self.inv(), self.recs() == pre + structs_c(lib.structs@.take(it.index@ as int)), it.index@ <= lib.structs@.len(),
+//|                 lib_req(*lib),
 //@   loopend 1
 //|             proof { assert(lib.structs@.take(it.index@ + 1).drop_last() == lib.structs@.take(it.index@ as int)); assert(self.recs() =~= pre + structs_c(lib.structs@.take(it.index@ + 1))); }
 //@   before /^        Ok\(\(\)\)$/
@@ -233,12 +343,52 @@ trait Encode {
 pub fn vp_extend_recs(v: &mut Vec<GdsRecord>, w: Vec<GdsRecord>) ensures final(v)@ == old(v)@ + w@ { v.extend(w) }
 impl Encode for GdsRecordList {
     closed spec fn recs(&self) -> Seq<Content> { contents(self.records@) }
+    closed spec fn inv(&self) -> bool { true }
 //@ fn gds21/src/write.rs :: impl Encode for GdsRecordList :: fn encode_record
 //@   sub R6 /Ok\(self\.records\.push\(record\)\)/ => self.records.push(record); proof { assert(contents(self.records@) =~= contents(old(self).records@).push(content(record))); } Ok(())
 //@ end
 //@ fn gds21/src/write.rs :: impl Encode for GdsRecordList :: fn encode_records
 //@   sub R6 /Ok\(self\.records\.extend\(records\.to_vec\(\)\)\)/ => vp_extend_recs(&mut self.records, records.to_vec()); proof { assert(contents(self.records@) =~= contents(old(self).records@) + contents(records@)); } Ok(())
 //@ end
+}
+// the implementor that writes bytes: GdsWriter (gds21/src/write.rs).  Its encoder state is the byte stream, seen through the independent decoder `cstream`.
+impl Encode for GdsWriter {
+    closed spec fn recs(&self) -> Seq<Content> { cstream(self.dest@) }
+    closed spec fn inv(&self) -> bool { wf_stream(self.dest@) }
+//@ fn gds21/src/write.rs :: impl Encode for GdsWriter<'_> :: fn encode_record
+//@   sub R2 /self\.write_record\(&record\)/ => proof { lemma_rec_ok(record); } let r = self.write_record(&record); proof { if r is Ok { lemma_stream_push(old(self).dest@, record); } } r
+//@ end
+//@ fn gds21/src/write.rs :: impl Encode for GdsWriter<'_> :: fn encode_records
+//@   sub R2 /self\.write_records\(records\)/ => proof { assert forall|i: int| 0 <= i < records@.len() implies payload(#[trigger] records@[i]).len() < 0x7fff_ffff_ffff_ff00 by { lemma_rec_ok(records@[i]); } assert forall|i: int| 0 <= i < records@.len() implies reals_ok(#[trigger] records@[i]) by { lemma_rec_ok(records@[i]); } } let r = self.write_records(records); proof { if r is Ok { lemma_stream_recs(old(self).dest@, records@); } } r
+//@ end
+}
+impl GdsWriter {
+//@ fn gds21/src/write.rs :: impl<'wr> GdsWriter<'wr> :: fn write_lib
+//@   ret r
+//@   spec
+//|         requires wf_stream(old(self).dest@), lib_req(*lib),
+//|         ensures r is Ok ==> wf_stream(final(self).dest@) && cstream(final(self).dest@) == cstream(old(self).dest@) + lib_c(*lib),
+//@ end
+}
+/// C02 at stream level: appending the bytes of a list of accepted records appends exactly their contents to the decoded stream
+proof fn lemma_stream_recs(b: Seq<u8>, rs: Seq<GdsRecord>)
+    requires wf_stream(b), forall|i: int| 0 <= i < rs.len() ==> writable(#[trigger] rs[i]) && reals_ok(rs[i]),
+    ensures wf_stream(b + recs_bytes(rs)), cstream(b + recs_bytes(rs)) == cstream(b) + contents(rs),
+    decreases rs.len()
+{
+    if rs.len() == 0 {
+        assert(b + recs_bytes(rs) =~= b);
+        assert(cstream(b) + contents(rs) =~= cstream(b));
+    } else {
+        let h = rs.drop_last();
+        lemma_stream_recs(b, h);
+        lemma_recs_push(h, rs.last());
+        assert(h.push(rs.last()) == rs);
+        lemma_stream_push(b + recs_bytes(h), rs.last());
+        assert(b + recs_bytes(rs) =~= (b + recs_bytes(h)) + rec_bytes(rs.last()));
+        assert(contents(rs) =~= contents(h).push(content(rs.last())));
+        assert(cstream(b + recs_bytes(rs)) =~= cstream(b) + contents(rs));
+    }
 }
 /// the XY record's content for a flattened point list is the grammar's coordinate list
 proof fn lemma_xy(p: Seq<GdsPoint>) ensures forall|v: Vec<i32>| #[trigger] xy_of(p, v@) ==> content(GdsRecord::Xy(v)) == ci(0x10, xy_ints(p)),
